@@ -5,6 +5,7 @@ mod c05;
 mod c06;
 mod c08;
 mod c09;
+mod c10;
 mod c11;
 mod c12;
 mod c13;
@@ -52,6 +53,7 @@ fn main() {
         "C06" => c06::main(&args[1..]),
         "C08" => c08::main(&args[1..]),
         "C09" => c09::main(&args[1..]),
+        "C10" => c10::main(&args[1..]),
         "C11" => c11::main(&args[1..]),
         "C12" => c12::main(&args[1..]),
         "C13" => c13::main(&args[1..]),
